@@ -39,6 +39,11 @@ def run(tier, seed):
             rq = {'so': so, 'se': se, 'mo': mo, 'me': me, 'umask': rnd.choice([0o22, 0o27, 0o77, 0o0]), 'stdin': 'input-%d' % rnd.randint(0, 999),
                   'shell': rnd.choice(['/bin/sh', '/bin/sh', '/bin/bash'])}
             jobs.append((rq, v))
+    # output files named relative to the job's working directory, in every routing
+    for (so, se, mo, me) in rows:
+        if not (so or se): continue
+        for v in variants()[:1] + variants()[2:3]:
+            jobs.append(({'so': so, 'se': se, 'mo': mo, 'me': me, 'umask': 0o22, 'stdin': 'rel', 'shell': '/bin/sh', 'relfiles': True}, v))
     # a mailer that fails (sendmail exits 75 or 1 after taking the message): routing into the files, the journal and the removal of
     # the temporary files do not depend on it
     for (so, se, mo, me) in rows:
